@@ -65,11 +65,12 @@ PURE_METHODS = {
     "any", "all", "dropna", "min", "max", "sum", "std", "var", "abs", "astype", "predict", "split",
     "transform", "inverse_transform", "get_params", "to_pandas", "to_absolute", "to_relative",
     "reindex", "shift", "diff", "rolling", "tolist", "items", "keys", "get", "format",
-    "ppf",
+    "ppf", "bfill", "ffill", "backfill", "pad", "clip", "where", "mask", "round", "sub", "add",
+    "mul", "div", "cumsum", "nunique", "unique", "flatten", "count", "isin",
 }
 # attribute loads / methods that return (a view of) the receiver
 VIEW_ATTRS = {"iloc", "loc", "at", "iat", "values", "T", "seasonal", "array"}
-VIEW_METHODS = {"to_numpy", "squeeze", "ravel", "reshape", "view", "to_frame"}
+VIEW_METHODS = {"to_numpy", "squeeze", "ravel", "reshape", "view", "to_frame", "head", "tail"}
 # attribute loads that yield immutable metadata
 META_ATTRS = {"index", "columns", "shape", "dtype", "dtypes", "name", "size", "ndim",
               "window_length", "freq", "freqstr"}
